@@ -159,3 +159,136 @@ pub fn gen_case(rng: &mut Rng, profile: &str, _size: usize) -> Case {
 pub fn candidates(c: &Case) -> Vec<String> {
     c.g.candidates().into_iter().filter(|g| g.nodes.len() > 20).map(|g| Case { g, ..c.clone() }.request()).collect()
 }
+
+// ---------------------------------------------------------------------------------------------------------------------------
+// `parbig n c directed weighted seed`: a sparse random graph far above every size threshold of the crate (1 030 .. 2 140 nodes,
+// mean degree c), built here from the seed. Every algorithm family of the crate - not only the five functions that are parallel
+// today - is called in a pool of one worker, again in the same pool, and in pools of 3 and 16 workers. Set-valued and
+// integer-valued answers and the five functions of C07 must agree exactly (bit patterns); the other float-valued answers to 1e-9
+// (C17: "up to floating-point rounding of sums").
+
+/// (exact part, float part) of every observable
+fn big_fingerprint(g: &Graph<u32, u32>, weighted: bool) -> (Vec<String>, Vec<f64>) {
+    use graphrs::algorithms::centrality::{degree, eigenvector};
+    use graphrs::algorithms::cluster;
+    use graphrs::algorithms::community::louvain;
+    use graphrs::algorithms::components;
+    use std::collections::{HashMap, HashSet};
+    let mut ex: Vec<String> = vec![];
+    let mut fl: Vec<f64> = vec![];
+    let names: Vec<u32> = { let mut v: Vec<u32> = g.get_all_node_names().into_iter().copied().collect(); v.sort(); v };
+    let sets = |r: Result<Vec<HashSet<u32>>, graphrs::Error>| -> String {
+        match r {
+            Err(e) => format!("E{}", err_code(&e.kind)),
+            Ok(v) => { let mut rows: Vec<Vec<u32>> = v.into_iter().map(|s| { let mut x: Vec<u32> = s.into_iter().collect(); x.sort(); x }).collect(); rows.sort(); format!("{:?}", rows) }
+        }
+    };
+    let bits = |r: Result<HashMap<u32, f64>, graphrs::Error>| -> String {
+        match r {
+            Err(e) => format!("E{}", err_code(&e.kind)),
+            Ok(m) => { let mut v: Vec<(u32, u64)> = m.into_iter().map(|(k, x)| (k, x.to_bits())).collect(); v.sort(); format!("{:?}", v) }
+        }
+    };
+    let mut floats = |tag: &str, r: Result<HashMap<u32, f64>, graphrs::Error>, ex: &mut Vec<String>| {
+        match r {
+            Err(e) => ex.push(format!("{}:E{}", tag, err_code(&e.kind))),
+            Ok(m) => {
+                let mut keys: Vec<u32> = m.keys().copied().collect();
+                keys.sort();
+                ex.push(format!("{}:{}", tag, keys.len()));
+                for k in keys { fl.push(m[&k]); }
+            }
+        }
+    };
+    // C07's five functions: bit for bit
+    ex.push(bits(betweenness::betweenness_centrality(g, weighted, true)));
+    ex.push(bits(closeness::closeness_centrality(g, weighted, true)));
+    let some: Vec<u32> = names.iter().step_by(names.len() / 24 + 1).copied().collect();
+    let pairs = |r: Result<HashMap<u32, HashMap<u32, graphrs::algorithms::shortest_path::ShortestPathInfo<u32>>>, graphrs::Error>| -> String {
+        match r {
+            Err(e) => format!("E{}", err_code(&e.kind)),
+            Ok(m) => {
+                let mut rows: Vec<String> = m.into_iter().map(|(s, row)| {
+                    let mut cells: Vec<String> = row.into_iter().map(|(t, i)| { let mut ps = i.paths; ps.sort(); format!("{}:{}:{:?}", t, i.distance.to_bits(), ps) }).collect();
+                    cells.sort();
+                    format!("{}>{}", s, cells.join(";"))
+                }).collect();
+                rows.sort();
+                rows.join(" ")
+            }
+        }
+    };
+    ex.push(pairs(dijkstra::multi_source(g, weighted, some.clone(), None, None, false, true)));
+    ex.push(pairs(dijkstra::multi_source(g, weighted, some.clone(), Some(names[names.len() / 2]), Some(6.0), true, false)));
+    ex.push(pairs(dijkstra::all_pairs(g, weighted, Some(names[0]), None, true, false)));
+    let mut inv: Vec<String> = dijkstra::get_all_shortest_paths_involving(g, names[1], weighted).into_iter().map(|i| format!("{}:{}", i.distance.to_bits(), i.paths.len())).collect();
+    inv.sort();
+    inv.truncate(5000);
+    ex.push(inv.join(";"));
+    // components, BFS, equal-size partitions
+    ex.push(sets(components::connected_components(g)));
+    ex.push(sets(components::weakly_connected_components(g)));
+    ex.push(sets(components::strongly_connected_components(g)));
+    ex.push(format!("{:?}", components::number_of_connected_components(g).map_err(|e| err_code(&e.kind))));
+    ex.push(format!("{:?}", g.breadth_first_search(&names[0])));
+    ex.push(format!("{:?}", components::bfs_equal_size_partitions(g, 7)));
+    // clustering
+    ex.push(format!("{:?}", cluster::triangles(g, None).map(|m| { let mut v: Vec<(u32, usize)> = m.into_iter().collect(); v.sort(); v }).map_err(|e| err_code(&e.kind))));
+    ex.push(format!("{:?}", cluster::generalized_degree(g, None).map(|m| { let mut v: Vec<(u32, Vec<(usize, usize)>)> = m.into_iter().map(|(k, h)| { let mut x: Vec<(usize, usize)> = h.into_iter().collect(); x.sort(); (k, x) }).collect(); v.sort(); v }).map_err(|e| err_code(&e.kind))));
+    floats("clustering", cluster::clustering(g, false, None), &mut ex);
+    floats("clustering_w", cluster::clustering(g, weighted, None), &mut ex);
+    floats("square", Ok(cluster::square_clustering(g, None)), &mut ex);
+    floats("degree_centrality", Ok(degree::degree_centrality(g)), &mut ex);
+    floats("eigenvector", eigenvector::eigenvector_centrality(g, weighted, Some(60), Some(1e-5)), &mut ex);
+    match cluster::transitivity(g) { Ok(x) => fl.push(x), Err(e) => ex.push(format!("transitivity:E{}", err_code(&e.kind))) }
+    match cluster::average_clustering(g, weighted, None, true) { Ok(x) => fl.push(x), Err(e) => ex.push(format!("avg:E{}", err_code(&e.kind))) }
+    // degrees and sizes
+    ex.push(format!("{} {} {}", g.number_of_nodes(), g.number_of_edges(), g.size(false)));
+    fl.push(g.size(true));
+    fl.push(g.get_density());
+    // seeded Louvain
+    let lp = louvain::louvain_partitions(g, weighted, None, None, Some(11));
+    ex.push(match lp { Err(e) => format!("E{}", err_code(&e.kind)), Ok(levels) => levels.into_iter().map(|l| sets(Ok(l))).collect::<Vec<_>>().join("|") });
+    (ex, fl)
+}
+
+pub fn observe_big(t: &mut Toks) -> String {
+    let n = t.next() as u32;
+    let c = t.next() as u64;
+    let directed = t.next() != 0;
+    let weighted = t.next() != 0;
+    let seed = t.next() as u64;
+    let mut rng = Rng::new(seed);
+    let mut names: Vec<u32> = (0..n).map(|i| 3 * i + 1).collect();
+    rng.shuffle(&mut names);
+    let mut seen = std::collections::HashSet::new();
+    let mut edges = vec![];
+    for _ in 0..(n as u64 * c / 2) {
+        let (a, b) = (names[rng.below(n as u64) as usize], names[rng.below(n as u64) as usize]);
+        let key = if directed { (a, b) } else { (a.min(b), a.max(b)) };
+        if a == b || !seen.insert(key) { continue; }
+        let w = (rng.range(1, 40) as f64) / 7.0;
+        edges.push(if weighted { graphrs::Edge::with_weight(a, b, w) } else { graphrs::Edge::new(a, b) });
+    }
+    let specs = if directed { graphrs::GraphSpecs::directed_create_missing() } else { graphrs::GraphSpecs::undirected_create_missing() };
+    let g: Graph<u32, u32> = match Graph::new_from_nodes_and_edges(names.iter().map(|x| graphrs::Node::from_name(*x)).collect(), edges, specs) {
+        Ok(g) => g,
+        Err(e) => return format!("i.build=E{}", err_code(&e.kind)),
+    };
+    let run = |k: usize| rayon::ThreadPoolBuilder::new().num_threads(k).build().unwrap().install(|| big_fingerprint(&g, weighted));
+    let base = run(1);
+    let mut diffs: Vec<String> = vec![];
+    for (tag, k) in [("again1", 1usize), ("pool3", 3), ("pool16", 16)] {
+        let other = run(k);
+        if other.0.len() != base.0.len() || other.1.len() != base.1.len() { diffs.push(format!("{}:shape", tag)); continue; }
+        for i in (0..base.0.len()).filter(|i| base.0[*i] != other.0[*i]) { diffs.push(format!("{}:exact#{}", tag, i)); }
+        let close = |a: f64, b: f64| a == b || (a.is_nan() && b.is_nan()) || (a - b).abs() <= 1e-9 * a.abs().max(b.abs()).max(1e-3);
+        if let Some(i) = (0..base.1.len()).find(|i| !close(base.1[*i], other.1[*i])) { diffs.push(format!("{}:float#{}:{:e}/{:e}", tag, i, base.1[i], other.1[i])); }
+    }
+    format!("i.build=0|i.par={}|i.fplen={}", if diffs.is_empty() { "1".to_string() } else { diffs.join(",") }, base.0.iter().map(|s| s.len()).sum::<usize>() + base.1.len())
+}
+
+pub fn gen_big(rng: &mut Rng) -> String {
+    let n = *rng.pick(&[1030i64, 1300]) + rng.range(0, 80);
+    format!("parbig {} {} {} {} {}", n, rng.range(2, 4), rng.below(2), rng.below(2), rng.below(1_000_000))
+}
